@@ -479,6 +479,77 @@ macro_rules! fm_unary {
 fm_unary!(Neg, neg, "-");
 fm_unary!(Not, not, "!");
 
+// FmN<N>: a field type that mentions only a CONST parameter and implements the operators for N = 2 only
+// (a derived impl without the where-bound `FmN<N>: Op<..>` does not type-check)
+#[derive(Debug, PartialEq, Eq, Default, Clone)]
+pub struct FmN<const N: usize>(pub Fm);
+macro_rules! fmn_binary {
+    ($Tr:ident, $f:ident, $TrA:ident, $fa:ident) => {
+        impl core::ops::$Tr<FmN<2>> for FmN<2> {
+            type Output = FmN<2>;
+            fn $f(self, r: FmN<2>) -> FmN<2> {
+                FmN(core::ops::$Tr::$f(self.0, r.0))
+            }
+        }
+        impl<'a> core::ops::$Tr<&'a FmN<2>> for FmN<2> {
+            type Output = FmN<2>;
+            fn $f(self, r: &'a FmN<2>) -> FmN<2> {
+                FmN(core::ops::$Tr::$f(self.0, &r.0))
+            }
+        }
+        impl<'a> core::ops::$Tr<FmN<2>> for &'a FmN<2> {
+            type Output = FmN<2>;
+            fn $f(self, r: FmN<2>) -> FmN<2> {
+                FmN(core::ops::$Tr::$f(&self.0, r.0))
+            }
+        }
+        impl<'a, 'b> core::ops::$Tr<&'b FmN<2>> for &'a FmN<2> {
+            type Output = FmN<2>;
+            fn $f(self, r: &'b FmN<2>) -> FmN<2> {
+                FmN(core::ops::$Tr::$f(&self.0, &r.0))
+            }
+        }
+        impl core::ops::$TrA<FmN<2>> for FmN<2> {
+            fn $fa(&mut self, r: FmN<2>) {
+                core::ops::$TrA::$fa(&mut self.0, r.0)
+            }
+        }
+        impl<'a> core::ops::$TrA<&'a FmN<2>> for FmN<2> {
+            fn $fa(&mut self, r: &'a FmN<2>) {
+                core::ops::$TrA::$fa(&mut self.0, &r.0)
+            }
+        }
+    };
+}
+fmn_binary!(Add, add, AddAssign, add_assign);
+fmn_binary!(Sub, sub, SubAssign, sub_assign);
+fmn_binary!(Mul, mul, MulAssign, mul_assign);
+fmn_binary!(Div, div, DivAssign, div_assign);
+fmn_binary!(Rem, rem, RemAssign, rem_assign);
+fmn_binary!(BitAnd, bitand, BitAndAssign, bitand_assign);
+fmn_binary!(BitOr, bitor, BitOrAssign, bitor_assign);
+fmn_binary!(BitXor, bitxor, BitXorAssign, bitxor_assign);
+fmn_binary!(Shl, shl, ShlAssign, shl_assign);
+fmn_binary!(Shr, shr, ShrAssign, shr_assign);
+macro_rules! fmn_unary {
+    ($Tr:ident, $f:ident) => {
+        impl core::ops::$Tr for FmN<2> {
+            type Output = FmN<2>;
+            fn $f(self) -> FmN<2> {
+                FmN(core::ops::$Tr::$f(self.0))
+            }
+        }
+        impl<'a> core::ops::$Tr for &'a FmN<2> {
+            type Output = FmN<2>;
+            fn $f(self) -> FmN<2> {
+                FmN(core::ops::$Tr::$f(&self.0))
+            }
+        }
+    };
+}
+fmn_unary!(Neg, neg);
+fmn_unary!(Not, not);
+
 // ------------------------------------------------------------------------------------
 // Probe machinery: does a type implement a trait?  (inherent const beats trait default)
 // ------------------------------------------------------------------------------------
